@@ -6,6 +6,55 @@ HERE = os.path.dirname(os.path.abspath(__file__))
 KINDS = ["Acct", "AcctV3", "Lastlog", "Lastlogx", "Utmp", "Utmpx"]
 # a file name per reader kind (the name alone selects the reader, C16)
 KIND_NAME = {"Acct": "acct", "AcctV3": "pacct", "Lastlog": "lastlog", "Lastlogx": "lastlogx", "Utmp": "wtmp", "Utmpx": "utmpx"}
+# the names such files have on the systems they come from, and the reader kind each name selects
+# (the name alone selects it: C16; cross-checked on every run against the library's own path_to_filetype)
+NAME_KIND = {"acct": "Acct", "pacct": "AcctV3", "lastlog": "Lastlog", "lastlogx": "Lastlogx",
+             "utmp": "Utmp", "wtmp": "Utmp", "btmp": "Utmp", "wtmp.1": "Utmp",
+             "utmpx": "Utmpx", "wtmpx": "Utmpx", "btmpx": "Utmpx"}
+
+
+def layout_names(name):
+    """file names under which records of this layout are found in the field (the first is the default)"""
+    k = layout_kind(name)
+    if name.startswith("Fs_Linux") and k == "Utmpx":     # glibc: struct utmpx in /var/run/utmp, /var/log/wtmp, /var/log/btmp
+        return ["utmpx", "wtmp", "utmp", "btmp", "wtmp.1", "wtmpx"]
+    if k == "Utmpx":
+        return ["utmpx", "wtmpx", "btmpx"]
+    if k == "Utmp":
+        return ["wtmp", "utmp", "wtmp.1"]
+    return [KIND_NAME[k]]
+
+
+def case_fname(lay, c):
+    return c.get("fname") or KIND_NAME[lay["kind"]]
+
+
+def case_kind(lay, c):
+    """the reader kind the case's file name selects"""
+    return NAME_KIND[case_fname(lay, c)]
+
+
+REAL_USERS = ["administrator", "root", "backupoperator", "reboot", "postgresql", "LOGIN", "runlevel", "www-data-user"]
+# ut_addr_v6 shapes (16 bytes, as stored): empty; IPv4 in word 0; IPv6 with every word set; with zero
+# middle words (2001:db8::1); with only the last word set (::1); fe80::1; zero last word (2001:db8:85a3:8d3::)
+ADDR_SHAPES = [
+    bytes(16),
+    bytes([192, 168, 4, 18]) + bytes(12),
+    bytes.fromhex("20010db885a308d313198a2e03707348"),
+    bytes.fromhex("20010db8000000000000000000000001"),
+    bytes.fromhex("00000000000000000000000000000001"),
+    bytes.fromhex("fe800000000000000000000000000001"),
+    bytes.fromhex("20010db885a308d30000000000000000"),
+    bytes([10, 0, 0, 5]) + bytes(12),
+    bytes.fromhex("2a0206b8000000000000000000020242"),
+    bytes.fromhex("00000000000000000000ffffc0a80101"),
+]
+
+
+def addr_value(name, i):
+    return ADDR_SHAPES[(i + sum(name.encode())) % len(ADDR_SHAPES)]
+
+
 UT_TYPE_STR = ["EMPTY", "RUN_LVL", "BOOT_TIME", "NEW_TIME", "OLD_TIME", "INIT_PROCESS", "LOGIN_PROCESS",
                "USER_PROCESS", "DEAD_PROCESS", "ACCOUNTING", "SIGNATURE", "DOWN_TIME"]
 
@@ -82,8 +131,17 @@ def field_values(lay, i, strmode=None):
             else:
                 v[lab] = ""
             continue
+        if kind == "a":             # ut_addr_v6: [i32; 4], every shape of address
+            v[lab] = addr_value(lay["name"], i)
+            continue
         if kind == "c":
             j += 1
+            if ext.startswith("real") and lab in ("ut_user", "ut_name", "ut_id", "ut_host", "ll_host") :
+                sh = int(ext[4:] or 0)
+                s = {"ut_user": REAL_USERS[(i + sh) % len(REAL_USERS)], "ut_name": REAL_USERS[(i + sh) % len(REAL_USERS)],
+                     "ut_id": "ts/%d" % (i % 10), "ut_host": "192.168.4.%d" % (i % 250), "ll_host": "192.168.4.%d" % (i % 250)}[lab]
+                v[lab] = s[:size - 1] if size > 4 else s[:size]
+                continue
             if "line" in lab:
                 s = "pts/%d" % i
             elif lab in ("ut_user", "ut_name"):
@@ -109,7 +167,7 @@ def field_values(lay, i, strmode=None):
                 v[lab] = s[:size - 1] if m == "normal" else pad_to(s, size - 1 if m == "wm1" else size)
         elif kind in ("i", "u"):
             if lab == "ut_type":
-                v[lab] = 7
+                v[lab] = 1 + (i + int(ext[4:] or 0)) % 8 if ext.startswith("real") else 7
             elif lab in ("ut_pid", "ac_pid"):
                 # process ids go up to 2^22 on Linux: values beyond 16 and 17 bits as well
                 v[lab] = [1000 + i, 40000 + i, 70000 + i, 4194000 + i][i % 4] if size >= 4 else 1000 + i
@@ -163,6 +221,8 @@ def make_record(lay, i, tv, null_kind=None, strmode=None):
         elif kind == "b":
             b = vals[lab].encode("latin-1")
             buf[off:off + len(b)] = b
+        elif kind == "a":
+            buf[off:off + size] = vals[lab]
         elif kind in ("i", "u"):
             put_int(buf, off, size, vals[lab], kind == "i")
     sec, usec = (0, 0) if null_kind == "zerotime" else tv
@@ -184,6 +244,8 @@ def expected_patterns(lay, i, tv, strmode=None):
             pats.append((lab, r"(?:^|[ '])%s '?%s'" % (re.escape(lab), re.escape(vals[lab]))))
         elif kind == "b":
             pats.append((lab, r"(?:^|[ '])%s '?%s(?:'|$)" % (re.escape(lab), re.escape(vals[lab]))))
+        elif kind == "a":
+            pats.append((lab, r" %s$" % re.escape(addr_text(vals[lab]))))
         elif kind in ("i", "u"):
             if lab == "ut_type":
                 pats.append((lab, r"(?:^|[ '])ut_type %s(?: |$)" % UT_TYPE_STR[vals[lab]]))
@@ -197,6 +259,15 @@ def expected_patterns(lay, i, tv, strmode=None):
             else:
                 pats.append((lab, r"(?:^|[ '])%s %d(?: |$)" % (re.escape(lab), tv[0])))
     return pats
+
+
+def addr_text(a):
+    """what a line shows for the 16 address bytes (utmp(5): an IPv4 address uses just ut_addr_v6[0], the
+    other three words are zero): `ut_addr a.b.c.d` for IPv4 / empty, else `ut_addr_v6` and the four
+    words as stored (little-endian i32) in upper-case hexadecimal"""
+    if a[4:] == bytes(12):
+        return "ut_addr %d.%d.%d.%d" % tuple(a[:4])
+    return "ut_addr_v6 " + ":".join("%X" % int.from_bytes(a[k:k + 4], "little") for k in range(0, 16, 4))
 
 
 def marker_field(lay):
